@@ -37,7 +37,7 @@ ASSUMPTIONS = [
     "advertised defaults of virtual (nested-attribute) parameters are documentation only and are not compared with behaviour",
     "a signature that advertises **overflow has no 'outside' keywords",
 ]
-PROFILE = dict(grammar.PROFILES["data_plain"], with_v=True, flags=False, invalidation=False, max_attrs=6)
+PROFILE = dict(grammar.PROFILES["data_plain"], with_v=True, flags=False, invalidation=False, max_attrs=6, frozen_nested=True)
 NESTED_ATTRS = {"U": {"a": ["int"], "b": ["str"]}, "N": {"k": ["str"], "v": ["int"], "notes": ["list", ["str"]]}, "V": {"w": ["int"]}}
 GOOD = {"int": [4, 0], "str": ["p", ""], "list": [["list", ["n"]], ["list", ["m", "n"]]]}
 OUTSIDE = ["zzz", "h", "opts", "_private", "_inplce", "_iff", "bogus_attr"]
@@ -415,6 +415,14 @@ def check_method(ctx, world, wd, mname, kind, attr, nested, params, receiver):
         if o1 == "raise" and binding_error(mname, v1):
             ctx.fail(f"pair_rejected|{kind}", dict(case0, test=f"pair:{p.name},{q.name}"), f"{mname}(**{k2}) raised {v1!r}")
             return False
+        if o1 == "raise" and "_inplace" in (p.name, q.name) and k2.get("_inplace") is True and kind != "init" \
+                and not world.class_desc(world.desc["instance_class"]).get("opts", {}).get("frozen"):
+            # a nested keyword together with _inplace=True: what the copy form accepts, the in-place form of a non-frozen
+            # receiver accepts too (the nested value is edited on a private copy either way)
+            r0, (o0, v0) = call(list(args), {k: v for k, v in k2.items() if k != "_inplace"})
+            if o0 == "ok":
+                ctx.fail(f"pair_refused|{kind}|{type(v1).__name__}", dict(case0, test=f"pair:{p.name},{q.name}"), f"{mname}(**{k2}) raised {v1!r}; without _inplace the same call succeeds")
+                return False
         ctx.count("pairs")
     # (4) unadvertised keywords
     if not var_kw:
